@@ -63,6 +63,22 @@ def make_cases(rng, tier):
                         cases.append(mk("general", th, eta, om, t1, t2))
                         if t1[2] * t2[2] <= 65 * 25:
                             cases.append(mk("quart", th, eta, om, t1, t2))
+    # scattering vectors within a fraction of a degree of the rotation axis at low Bragg angle: the discriminant of
+    # a cos w + b sin w = c is of order sin^2(theta) eta^2 = 1e-9 .. 1e-7 in absolute terms while the two roots are well separated
+    # (relative discriminant eta^2 / (theta^2 + eta^2) ~ 0.5): an absolute cut on the discriminant loses these reflections
+    def plus(a, b):          # sum of two Pythagorean angles
+        return (a[0] * b[0] - a[1] * b[1], a[1] * b[0] + a[0] * b[1], a[2] * b[2])
+    near = [(159999, 800, 160001), (159999, -800, 160001), (-159999, 800, 160001), (-159999, -800, 160001),
+            (9999, 200, 10001), (-9999, -200, 10001)]
+    for th in (TH[12], TH[11], TH[10]):
+        for e0 in near:
+            for om in rng.sample(A, 2 if tier == "quick" else 8):
+                cases.append(mk("plain", th, e0, om, (1, 0, 1), (1, 0, 1)))
+                cases.append(mk("wedge", th, e0, om, (1, 0, 1), (1, 0, 1)))
+                for t1 in [(1, 0, 1), (24, 7, 25), (12, -5, 13)]:
+                    # rotation axis Rx(t1) z = (0, -sin t1, cos t1): g is close to it for eta = t1 + small
+                    cases.append(mk("general", th, plus(t1, e0), om, t1, (1, 0, 1)))
+                    cases.append(mk("quart", th, plus(t1, e0), om, t1, (1, 0, 1)))
     un = []
     small_t = [(1, 0, 1), (4, 3, 5), (12, 5, 13), (12, -5, 13), (4, -3, 5)]
     for th in [(4, 3, 5), (12, 5, 13), (5, 12, 13), (3, 4, 5)]:
